@@ -151,14 +151,15 @@ impl Family for B2 {
     fn execute(&self, s: &Scn) -> RunOut {
         let mut out = RunOut::default();
         out.props = vec!["C13"];
-        let w: World = world(s.seed);
+        let w: World = world(s.seed % 16); // small pool of key worlds: the reference scrypt cache hits
         let pubs: Vec<[u8; 32]> = w.sks.iter().map(rp::x25519_base).collect();
         let mut r = Rng::new(s.seed ^ 0xB2);
         let sb = Sandbox::new("b2");
         let later = matches!(s.cause, Cause::LaterChunkCorrupt(_) | Cause::LaterChunkTruncated(_));
         // plaintext: three chunks when a later chunk must fail, small otherwise
         let pt = if later { r.bytes(2 * CHUNK + 1000) } else { { let n = 200 + r.usize_below(500); r.bytes(n) } };
-        let (e, payload, fsalt) = (r.arr32(), r.arr32(), r.arr32());
+        let (e, payload) = (r.arr32(), r.arr32());
+        let fsalt = Rng::new(s.seed % 16).arr32();
         let key_file = |pt: &[u8]| {
             rf::write_key_file(
                 &rf::KeyParams { s_priv: &w.sks[0], s_pub_claimed: &pubs[0], e_priv: &e, e_pub: &rp::x25519_base(&e), recipient: &pubs[1], payload_key: &payload },
